@@ -189,7 +189,7 @@ def halt_sites(fx, W, f, ws):
     return out
 
 
-def drop_blocks(fx, W, f, ws, fld):
+def drop_blocks(fx, W, f, ws, fld, _depth=0):
     """blocks where f empties the run-time stack `fld` down to its floor: a truncate, or a floored pop primitive called in a loop"""
     out = {x['bb'] for x in ws if x['field'][0] == fld and x['how'].startswith('call:shrink')}
     poppers = {fn for fn, ws2 in W.items() if any(x['field'][0] == fld and x['how'].startswith('call:shrink:pop') for x in ws2)}
@@ -200,6 +200,15 @@ def drop_blocks(fx, W, f, ws, fld):
     for bb, t in f.calls():
         if callee_of(t) in poppers and bb in inloop:
             out.add(bb)
+    # ... or a call of a helper that does (the splicing of helpers into a view is depth-bounded)
+    if _depth < 2:
+        for bb, t in f.calls():
+            c = callee_of(t)
+            g = fx.fns.get(c) if c and c.startswith('state::') and c not in poppers and c != f.name else None
+            if g is not None and bb not in out:
+                from .. import awrite as _aw
+                if drop_blocks(fx, W, g, W.get(c, []), fld, _depth + 1):
+                    out.add(bb)
     return out
 
 
